@@ -1,8 +1,67 @@
 (* C16 -- CSSRule yields exactly one rule: selectors cannot inject blocks, rules or markup.
-   This file holds only the property theorems; proofs are in proofs/CssRuleFacts.v. *)
+   This file holds only the property theorems; proofs are in proofs/CssRuleFacts.v.
+   Recorded defects: D12 (url( in the selector), D19 (leading -->); witnesses in props/C16_findings.v. *)
 From V Require Import lib.Base lib.Utf8 spec.CssSyntax model.CssRule spec.CssRuleSpec proofs.CssRuleFacts.
 
+(* CSSRule either fails or returns exactly selector{style} *)
 Theorem C16_layout : forall sel st o,
   css_rule sel st = Some o -> o = sel ++ [123] ++ st ++ [125].
 Proof. exact css_rule_layout. Qed.
 Print Assumptions C16_layout.
+
+(* rejections *)
+Theorem C16_rejects_lt : forall sel st, In 60 sel -> css_rule sel st = None.
+Proof. exact css_rule_rejects_lt. Qed.
+Print Assumptions C16_rejects_lt.
+
+Theorem C16_rejects_invalid_rune : forall sel st c,
+  In c (decode_runes (strip_strings sel)) -> is_allowed_selector_char c = false ->
+  css_rule sel st = None.
+Proof. exact css_rule_rejects_invalid_rune. Qed.
+Print Assumptions C16_rejects_invalid_rune.
+
+Theorem C16_rejects_unbalanced : forall sel st,
+  has_balanced_brackets (strip_strings sel) = false -> css_rule sel st = None.
+Proof. exact css_rule_rejects_unbalanced. Qed.
+Print Assumptions C16_rejects_unbalanced.
+
+(* an accepted selector: no '<'; once its quoted strings are removed every byte is one of the
+   documented selector characters  - _ a-z A-Z 0-9 # . : * space , > + ~ [ ] ( ) = ^ $ |
+   (so no { } ; @ \ / quote, newline, control or non-ASCII byte), and () [] are balanced *)
+Theorem C16_accepts : forall sel st o, css_rule sel st = Some o ->
+  ~ In 60 sel /\
+  forallb is_allowed_selector_char (strip_strings sel) = true /\
+  has_balanced_brackets (strip_strings sel) = true.
+Proof. exact css_rule_accepts. Qed.
+Print Assumptions C16_accepts.
+
+(* hasBalancedBrackets decides the inductive notion of balanced () [] *)
+Theorem C16_balanced : forall s, has_balanced_brackets s = true <-> balanced s.
+Proof. exact has_balanced_brackets_spec. Qed.
+Print Assumptions C16_balanced.
+
+(* the string scanner: a match starting at a quote q is exactly  q body q  with body in the CSS
+   string grammar (4.3.5 over raw bytes); nothing else is removed *)
+Theorem C16_scan_string_sound : forall q r rest, q <> 92 ->
+  scan_string q r = Some rest -> exists body, r = body ++ q :: rest /\ string_body q body = true.
+Proof. exact scan_string_sound. Qed.
+Print Assumptions C16_scan_string_sound.
+
+Theorem C16_scan_string_complete : forall q body rest, q <> 92 ->
+  string_body q body = true -> scan_string q (body ++ q :: rest) = Some rest.
+Proof. exact scan_string_complete. Qed.
+Print Assumptions C16_scan_string_complete.
+
+(* The tokenizer-level statement of the property: for a well-formed Style, an accepted selector
+   gives a result that a CSS Syntax Level 3 parser sees as exactly one qualified rule whose prelude
+   is the selector's token stream and whose block is the style's, and the selector contributes no
+   { } ; at-keyword, comment, '<', bad-string, bad-url, unterminated string/url or unbalanced bracket.
+   The full statement is FALSE of the faithful model (D12, D19: props/C16_findings.v).  The partial
+   statement is NOT proved: it is covered by the oracle search (the extracted predicate is evaluated
+   on the implementation's real results; the model is tied to the implementation on the same cases). *)
+Definition C16_one_rule_full_statement : Prop := forall sel st o,
+  style_wellformed st = true -> css_rule sel st = Some o ->
+  css_rule_spec sel st (Some o) = true.
+Definition C16_one_rule_partial_statement : Prop := forall sel st o,
+  style_wellformed st = true -> finding_D12 sel = false -> finding_D19 sel = false ->
+  css_rule sel st = Some o -> css_rule_spec sel st (Some o) = true.
